@@ -401,6 +401,8 @@ class MbSession:
             self.link = M.SerialLink(plan, cap, flush_on_write=bool(case.get("flush", True)))
             self.dev = M.MbootSerialDevice(self.core, self.link, ping_dummy=bytes(case.get("ping_dummy", 0)))
             self.stub = env["SerialStub"](self.dev, self.link, fail_write_at)
+            if fault and fault["kind"] == "notready":
+                self.stub.timeout = FLOOD_TIMEOUT_MS
             self.itf = env["MbootUARTInterface"](self.stub)
         else:
             self.link = M.HidLink(plan, cap)
@@ -586,6 +588,10 @@ def mb_check_fault(o: Oracle, sess: MbSession, k: int, op: dict, res: Res, pre: 
         return "budget"
     reads, delivered, writes = link.reads - pre["reads"], link.bytes_delivered - pre["delivered"], link.writes - pre["writes"]
     o.check("F2", reads <= delivered + writes + 16, "reads", "%s: %d reads, %d bytes delivered, %d writes" % (where, reads, delivered, writes))
+    if getattr(link, "flood_exceeded", False):
+        o.fail("F2", "notready_unbounded", "%s: the device answered 'not ready' (0x00) %d times during %.0f s and the call was still waiting; the link time-out is %d ms"
+               % (where, link.flood_reads, M.FLOOD_BOUND_S, FLOOD_TIMEOUT_MS))
+        link.flood_exceeded = False
     if res.exc is not None:
         if not isinstance(res.exc, (env["SPSDKError"], TimeoutError)):
             _fail_exc(o, "F3", "undocumented", res.exc, where)
@@ -894,8 +900,9 @@ def run_sdps(case: dict, o: Oracle) -> None:
 
 # ================================================================================================ faults: where they apply
 SERIAL_BYTE_KINDS = ("bitflip", "drop", "dup", "truncate")
+FLOOD_TIMEOUT_MS = 20  # the link time-out of a session whose device floods "not ready" bytes (the link lets go after 10 s)
 KINDS = {
-    "mb_serial": SERIAL_BYTE_KINDS + ("nak", "abort", "errstatus", "wrongtag", "write_fail"),
+    "mb_serial": SERIAL_BYTE_KINDS + ("notready", "nak", "abort", "errstatus", "wrongtag", "write_fail"),
     "mb_hid": ("zerolen", "missing", "short", "wrongid", "truncate", "abort", "errstatus", "wrongtag", "write_fail"),
     "sdp_uart": ("drop", "truncate", "bitflip", "errstatus", "write_fail"),
     "sdp_hid": ("missing", "short", "truncate", "wrongid", "errstatus", "write_fail"),
@@ -911,6 +918,8 @@ def _candidates(t: str, kind: str, units: list) -> list:
         if t == "mb_serial":
             if kind in SERIAL_BYTE_KINDS:
                 out.append(full)
+            elif kind == "notready" and role not in ("dummy", "pingr"):  # frame-start positions of the framing protocol proper
+                out.append(one)
             elif kind == "nak" and role in ("ack_cmd", "ack_data", "ack_image"):
                 out.append(one)
             elif kind == "abort" and role in ("ack_data", "data_out"):
